@@ -185,6 +185,7 @@ func Main(spec *Spec, opt Options) int {
 	exit := 0
 	var lines []string
 	inconclusive := []string{}
+	partials := []string{}
 	totalViol := 0
 	for _, r := range results {
 		isKnownRun := strings.Contains(r.Entry, "#known:")
@@ -229,11 +230,18 @@ func Main(spec *Spec, opt Options) int {
 				inconclusive = append(inconclusive, fmt.Sprintf("%s: %d paths ended %s (%s)", r.Entry, n, k, r.EndSamples[k]))
 			}
 		}
-		if r.Incomplete != "" {
+		partial := r.Spec.PartialOK && strings.HasPrefix(r.Incomplete, "time budget")
+		if partial {
+			partials = append(partials, fmt.Sprintf("%s: %s after %d paths (%d completed): the bound of this tier was not exhausted; the verdict covers the explored paths only", r.Entry, r.Incomplete, r.Paths, r.Ends["done"]))
+		} else if r.Incomplete != "" {
 			inconclusive = append(inconclusive, r.Entry+": "+r.Incomplete)
 		}
 		for _, wit := range r.Spec.Witnesses {
 			if !r.Reached[wit] {
+				if partial {
+					partials = append(partials, fmt.Sprintf("%s: reachability witness %q not reached in the explored part", r.Entry, wit))
+					continue
+				}
 				inconclusive = append(inconclusive, fmt.Sprintf("%s: reachability witness %q not reached (vacuity guard)", r.Entry, wit))
 			}
 		}
@@ -268,10 +276,13 @@ func Main(spec *Spec, opt Options) int {
 	for _, s := range inconclusive {
 		fmt.Printf("INCONCLUSIVE property=%s %s\n", spec.Property, s)
 	}
+	for _, s := range partials {
+		fmt.Printf("PARTIAL property=%s %s\n", spec.Property, s)
+	}
 
 	// ----- evidence -----
 	if opt.Evidence != "" {
-		writeEvidence(opt.Evidence, w, spec, opt, results, validated, totalViol, inconclusive, time.Since(t0).Seconds())
+		writeEvidence(opt.Evidence, w, spec, opt, results, validated, totalViol, inconclusive, partials, time.Since(t0).Seconds())
 	}
 	if exit == 0 {
 		fmt.Printf("OK property=%s tier=%s\n", spec.Property, opt.Tier)
@@ -516,7 +527,7 @@ func goCache() string {
 	return filepath.Join(h, "go-build")
 }
 
-func writeEvidence(path string, w *World, spec *Spec, opt Options, results []*HarnessResult, validated, violations int, inconclusive []string, wall float64) {
+func writeEvidence(path string, w *World, spec *Spec, opt Options, results []*HarnessResult, validated, violations int, inconclusive, partials []string, wall float64) {
 	var states, transitions, steps int64
 	samples := []interface{}{}
 	funcs := map[string]int{}
@@ -618,7 +629,8 @@ func writeEvidence(path string, w *World, spec *Spec, opt Options, results []*Ha
 		"inconclusive":      inconclusive,
 		"outside_the_claim": spec.Outside,
 		"load_s":            w.LoadSeconds,
-		"exhaustive":        len(inconclusive) == 0,
+		"exhaustive":        len(inconclusive) == 0 && len(partials) == 0,
+		"partial":           partials,
 		"explanation":       "states = feasible paths completed by the symbolic executor over the real SSA of /repo; transitions = decisions (solver-checked branches, concretisations, map orders, schedule choices); each assertion is discharged as path-condition AND NOT(property) = unsat",
 	}
 	if states == 0 {
